@@ -304,6 +304,43 @@ pub fn run(args: &Args, report: &mut Report) {
             if case.enable { 1 } else { 0 }, kind));
         runs.push(Run { case, raw, actual, codes, req });
     }
+    // the real standard library: every std file reports nothing; a main file that uses it does
+    if args.replay.is_none() {
+        let r = vh_common::catch(|| {
+            let mut ws = emmylua_code_analysis::VirtualWorkspace::new_with_init_std_lib();
+            let db = ws.analysis.compilation.get_db();
+            let ids = db.get_vfs().get_all_file_ids();
+            let mut std_files = 0u64;
+            let mut bad = Vec::new();
+            for id in ids {
+                if db.get_module_index().get_workspace_id(id).map(|w| w.is_std()).unwrap_or(false) {
+                    std_files += 1;
+                    if let Some(ds) = ws.analysis.diagnose_file(id, CancellationToken::new()) {
+                        if !ds.is_empty() {
+                            bad.push(format!("{:?}: {} diagnostics", db.get_vfs().get_file_path(&id), ds.len()));
+                        }
+                    }
+                }
+            }
+            let (_, main) = diagnose(&mut ws, "uses_std.lua", "print(string.format(\"%d\", 1))\nundefined_name()\n");
+            (std_files, bad, main)
+        });
+        match r {
+            Ok((n, bad, main)) => {
+                report.add("real_std_files_checked", n);
+                report.evaluations += n;
+                if let Some(b) = bad.first() {
+                    report.oracle_failure(json!({"input": {"std_file": b}, "what": format!("standard-library file reports: {b}"), "class": null}));
+                }
+                let main = main.unwrap_or_default();
+                if n == 0 || main.len() != 1 || main[0].code != "undefined-global" {
+                    report.oracle_failure(json!({"input": {"text": "print(string.format(\"%d\", 1))\nundefined_name()\n"},
+                        "what": format!("with the std library loaded ({n} files) a main file using it should report exactly the one undefined global, got {main:?}"), "class": null}));
+                }
+            }
+            Err(e) => report.oracle_failure(json!({"input": {"std": true}, "what": format!("panic while loading/diagnosing the std library: {e}"), "class": null})),
+        }
+    }
     let answers = run_driver(&reqs);
     for r in &runs {
         let case = &r.case;
